@@ -38,6 +38,19 @@ func genRace(seed uint64, prop string) *Scenario {
 	r := rand.New(rand.NewPCG(seed, 0x72616365))
 	// always some readers and flushers: the interesting pairs are across RPC kinds
 	g := newGen(seed, 0x72616366, &sc.Cfg)
+	// most batches use the general generator over a small SHARED key space (both instances, explicit
+	// and cross-instance group references, REPLACE and DELETE of referenced entries): there is no
+	// oracle here, and the pairs worth racing are the ones that touch the same tables
+	for i := range sc.Steps {
+		st := &sc.Steps[i]
+		if st.T != "s-ops" || r.IntN(3) == 0 {
+			continue
+		}
+		st.Ops = nil
+		for k := 0; k < 3+r.IntN(8); k++ {
+			st.Ops = append(st.Ops, opJSON(g.randomOp()))
+		}
+	}
 	gs := &GetSpec{All: true, AFT: int32(spb.AFTType_ALL)}
 	sc.Steps = append(sc.Steps, Step{T: "reader", Sess: 110, Get: gs, A: 2 + r.IntN(3)})
 	fs := &FlushSpec{All: r.IntN(2) == 0, NI: g.ni()}
@@ -52,6 +65,8 @@ func genRace(seed uint64, prop string) *Scenario {
 		fs.NI = ""
 	}
 	sc.Steps = append(sc.Steps, Step{T: "flusher", Sess: 210, Flush: fs, A: r.IntN(30)})
+	// and one that keeps flushing a single instance with override while the sessions program it
+	sc.Steps = append(sc.Steps, Step{T: "flusher", Sess: 211, Flush: &FlushSpec{Override: true, NI: g.ni()}, A: r.IntN(12), B: 2 + r.IntN(5)})
 	return sc
 }
 
@@ -170,10 +185,12 @@ func runRace(e *env) {
 		n++
 		simrt.Go("race-flusher", func() {
 			defer func() { done[slot] = true }()
-			simrt.Yield("flusher-delay", st.A)
-			ctx, cancel := context.WithTimeout(context.Background(), time.Minute)
-			defer cancel()
-			e.net.Flush(ctx, flushReq(st.Flush))
+			for i := 0; i <= st.B; i++ {
+				simrt.Yield("flusher-delay", st.A)
+				ctx, cancel := context.WithTimeout(context.Background(), time.Minute)
+				e.net.Flush(ctx, flushReq(st.Flush))
+				cancel()
+			}
 		})
 	}
 	total := n
